@@ -133,6 +133,8 @@ def _chunk_threads(args):
         out.fingerprints.add(fingerprint((scn, r['trace'])))
         out.traces_validated += 1
         out.count('threads:foreign=%d' % len(scn['foreign']))
+        if scn.get('quiet'):
+            out.count('threads:constructed-by-foreign-thread+quiet-loop')
         out.count('threads:flag-accesses', len(r['flaglog']))
         out.count('threads:calls', len(r['calls']))
         return r
